@@ -38,6 +38,9 @@ def shards(tier, seed):
             continue
         for labels in (("int", "str") if tier == "quick" else ("int", "str", "float")):
             out.append({"ln": ln, "nn": nn, "labels": labels, "depth": depth, "seed": 5 + seed})
+        if nn != "none":
+            # the two calls must also agree when both are split over workers (joblib model, isolated workers)
+            out.append({"ln": ln, "nn": nn, "labels": "int", "depth": 2, "seed": 5 + seed, "n_jobs": 2})
     return A.heavy_first(out)
 
 
@@ -123,10 +126,17 @@ def probe_after_queries(mab, cf, labels):
 def run_shard(shard):
     ln, nn, labels = shard["ln"], shard["nn"], shard["labels"]
     arms0 = S.initial_arms(labels)
-    cfg = A.config(ln, nn, arms=arms0, seed=shard["seed"])
+    cfg = A.config(ln, nn, arms=arms0, seed=shard["seed"], n_jobs=shard.get("n_jobs", 1))
     cf = ops.is_context_free(cfg)
     acc = report.Acc(ID, replay, shard)
+    if shard.get("n_jobs", 1) > 1:
+        from .. import sched
+        with sched.model():
+            return _explore(shard, cfg, cf, ln, nn, labels, arms0, acc)
+    return _explore(shard, cfg, cf, ln, nn, labels, arms0, acc)
 
+
+def _explore(shard, cfg, cf, ln, nn, labels, arms0, acc):
     def visit(mab, hist, removed):
         if not S.fitted(mab):
             return
@@ -150,6 +160,15 @@ def run_shard(shard):
 
 
 def replay(w):
+    cfg = w["cfg"]
+    if cfg.get("n_jobs", 1) > 1:
+        from .. import sched
+        with sched.model():
+            return _replay(w)
+    return _replay(w)
+
+
+def _replay(w):
     cfg = w["cfg"]
     mab = ops.build(cfg)
     for op in w["history"]:
